@@ -28,7 +28,7 @@ RULE = (
     "rational jet, t0, lift order, factorisation); non-trivial = explicit t-dependence and lift >= 2, or a stack with parts of different order"
 )
 ASSUMPTIONS = ["x64"]
-REQUIRED_LABELS = ["mode:lift_ode", "mode:lift_residual", "mode:bad_lift", "mode:from_ode", "mode:stack", "mode:linearize", "time_dependent",
+REQUIRED_LABELS = ["overlift_rejected", "mode:lift_ode", "mode:lift_residual", "mode:bad_lift", "mode:from_ode", "mode:stack", "mode:linearize", "time_dependent",
                    "lin:dense", "lin:isotropic", "lin:blockdiag"]
 MODES = ["lift_ode", "lift_residual", "bad_lift", "from_ode", "stack", "linearize", "linearize"]
 
@@ -51,7 +51,7 @@ def _case(draw):
     case = dict(mode=mode, d=d, nargs=nargs, degree=degree, C=_sparse_C(draw, field, d), lift=lift,
                 jet=draw(gen.mat(nargs + 8, d, gen.quarter(-6, 6))), t0=draw(gen.quarter(-8, 8)),
                 bad=draw(st.sampled_from(["negative", "too_large", "non_int", "too_large_by_one"])),
-                extra=draw(st.integers(0, 2)), fact=draw(st.sampled_from(gen.FACTS)), lin=draw(st.sampled_from(["ts0", "ts1", "residual", "ts0_lifted"])),
+                extra=draw(st.integers(0, 2)), fact=draw(st.sampled_from(gen.FACTS)), lin=draw(st.sampled_from(["ts0", "ts1", "residual", "ts0_lifted", "ts0_overlifted"])),
                 damp=draw(st.sampled_from([0.0, 0.25])), n_extra=draw(st.integers(0, 2)),
                 chol=draw(gen.vec(8, gen.quarter(1, 8))))
     if mode == "stack":
@@ -227,6 +227,20 @@ def check_case(case):
         prior = ssm.prior_wiener_integrated_diffuse(mean, std)
         rv = prior.init
         ode = make_ode()
+        if lin == "ts0_overlifted":
+            # the lift itself is admissible for *some* number of coefficients, but the state carries one coefficient too few:
+            # "reject lift orders that the supplied coefficients cannot support" - here the supplied coefficients are the state's
+            lb_bad = n - nargs + case["extra"] % 2
+            try:
+                cons = ssm.constraint_ode_ts0(ode.jet_lift(lift_by=lb_bad))
+                cond, _ = cons.linearize(rv, cons.init_linearization(), damp=case["damp"], t=t0)
+                F_, b_, _ = lib.cond_to_dense(fact, cond, d)
+            except Exception:  # noqa: BLE001  (a loud rejection, whatever its type)
+                res.label("overlift_rejected")
+                return res
+            res.violate("linearize:overlift_accepted", f"ts0/{fact}: an ODE lifted by {lb_bad} (outputs up to coefficient {nargs + lb_bad}) was linearised on a state with "
+                        f"{n} coefficients; operator rows {np.shape(F_)}, last row {'all zero' if not np.any(np.asarray(F_)[-d:]) else 'non-zero'}")
+            return res
         if lin == "ts0":
             cons = ssm.constraint_ode_ts0(ode)
         elif lin == "ts0_lifted":
